@@ -254,11 +254,13 @@ enum WriterCfg {
     None,
     Plain(usize),
     Sharded(usize, usize),
+    Auto(usize, usize),
 }
 #[derive(Clone)]
 enum ReaderCfg {
     Plain(usize),
     Sharded(usize, usize),
+    Auto(usize, usize),
 }
 
 struct Cfg {
@@ -312,11 +314,13 @@ pub fn run() {
                 cfg.writer = match f[1] {
                     "none" => WriterCfg::None,
                     "plain" => WriterCfg::Plain(capv(f[2])),
+                    "auto" => WriterCfg::Auto(f[2].parse().unwrap(), capv(f[3])),
                     _ => WriterCfg::Sharded(f[2].parse().unwrap(), capv(f[3])),
                 }
             }
             "reader" => cfg.readers.push(match f[1] {
                 "plain" => ReaderCfg::Plain(f[2].parse().unwrap()),
+                "auto" => ReaderCfg::Auto(f[2].parse().unwrap(), f[3].parse().unwrap()),
                 _ => ReaderCfg::Sharded(f[2].parse().unwrap(), f[3].parse().unwrap()),
             }),
             "checker" => cfg.checker = f[1].to_string(),
@@ -344,6 +348,15 @@ pub fn run() {
                             b.sharded_writer(cfg.root.join("w"), n, c);
                             shardeds.push(kismet_cache::sharded::Cache::new(cfg.root.join("w"), n, c));
                         }
+                        WriterCfg::Auto(n, c) => {
+                            // the builder's own choice of strategy
+                            b.writer(cfg.root.join("w"), n, c);
+                            if n <= 1 {
+                                plains.push(kismet_cache::plain::Cache::new(cfg.root.join("w"), c));
+                            } else {
+                                shardeds.push(kismet_cache::sharded::Cache::new(cfg.root.join("w"), n, c));
+                            }
+                        }
                     }
                     for r in &cfg.readers {
                         match r {
@@ -354,6 +367,10 @@ pub fn run() {
                             ReaderCfg::Sharded(i, n) => {
                                 b.sharded_reader(cfg.root.join(format!("r{}", i)), *n);
                                 rb.sharded(cfg.root.join(format!("r{}", i)), *n);
+                            }
+                            ReaderCfg::Auto(i, n) => {
+                                b.reader(cfg.root.join(format!("r{}", i)), *n);
+                                rb.cache(cfg.root.join(format!("r{}", i)), *n);
                             }
                         }
                     }
@@ -628,7 +645,8 @@ pub fn run() {
                         "tempdir" => {
                             let r = match &cfg.writer {
                                 WriterCfg::Plain(_) => plains[h].temp_dir().map(|p| p.to_path_buf()),
-                                WriterCfg::Sharded(_, _) => shardeds[h].temp_dir(if f.len() > 5 { Some(key(3)) } else { None }).map(|p| p.to_path_buf()),
+                                WriterCfg::Auto(n, _) if *n <= 1 => plains[h].temp_dir().map(|p| p.to_path_buf()),
+                                WriterCfg::Sharded(_, _) | WriterCfg::Auto(_, _) => shardeds[h].temp_dir(if f.len() > 5 { Some(key(3)) } else { None }).map(|p| p.to_path_buf()),
                                 WriterCfg::None => Err(std::io::Error::new(std::io::ErrorKind::Unsupported, "no writer")),
                             };
                             match r { Ok(p) => format!("OkPath {}", p.strip_prefix(&cfg.root).unwrap_or(&p).to_string_lossy()), Err(e) => err_line(&e) }
